@@ -133,6 +133,17 @@ def nonsingular(A):
     return bool(abs(np.linalg.det(A)) > 1e-9 * scale)
 
 
+def json_file(document):
+    """Path of a (temporary) file that holds the JSON text of `document` - the assumed contract of the file system and of
+    json.dump: reading the file back with json.load gives the document."""
+    import json
+    import tempfile
+    f = tempfile.NamedTemporaryFile('w', suffix='.json', delete=False, prefix='pyvc-')
+    json.dump(document, f)
+    f.close()
+    return f.name
+
+
 def raised(result, *classes):
     """For contracts with `total = True`: the outcome is passed as `result`; True iff it is an exception of a class."""
     return isinstance(result, Raised) and (not classes or isinstance(result.exc, tuple(classes)))
@@ -174,10 +185,12 @@ class ConcreteGen:
                 return 1.0
             r = self.rng
             choice = r.random()
-            if choice < 0.15:
+            if choice < 0.12:
                 v = 0.0
-            elif choice < 0.3:
+            elif choice < 0.24:
                 v = float(r.randint(-3, 3))
+            elif choice < 0.36:
+                v = float(r.randint(1, 9)) * 10.0 ** r.randint(-9, 9)      # decades: 1e-05, 2e-07, 3e+16 ...
             else:
                 v = r.choice([-1, 1]) * 10 ** r.uniform(-3, 3)
             if lo is not None and v < lo:
